@@ -165,9 +165,9 @@ def build_dataset(case, raw=False):
     if is_2d(case):
         from perception_eval.common.dataset import FrameGroundTruth
 
-        out = [FrameGroundTruth(fr["t"], str(fr["index"]), [make_obj2d(g, fr["t"]) for g in fr["gts"]]) for fr in case["frames"]]
+        out = [FrameGroundTruth(fr["t"], fr.get("name", str(fr["index"])), [make_obj2d(g, fr["t"]) for g in fr["gts"]]) for fr in case["frames"]]
     else:
-        out = [MC.make_gt_frame(fr, case["frame"]) for fr in case["frames"]]
+        out = [MC.make_gt_frame(fr, case["frame"], name=fr.get("name")) for fr in case["frames"]]
     if raw:     # sensor data as a loader attaches it (load_raw_data=True); evaluation has no business with it
         import numpy as np
 
@@ -185,6 +185,44 @@ def build_estimates(case):
             else:
                 out[(i, e)] = MC.make_estimates({"ests": ests, "ego": fr.get("ego"), "t": fr["t"]}, case["frame"])
     return out
+
+
+def gap_history(rng, variant):
+    """a tracking history whose middle frame is EMPTY (or empty for the labels of the tracks): frame 2 shows the objects of frame 0
+    again with one estimate displaced beyond every threshold and two identities swapped.  Scored against its real predecessor (the empty
+    frame) frame 2 has a false positive and no identity switch; scored against frame 0 it inherits frame 0's true positive / counts
+    switches -- so skipping, reordering or mis-pairing frames in the scene score shows"""
+    f0 = MC.gen_frame(rng, 0, n_gt=rng.randint(2, 5))
+    for g in f0["gts"]:
+        g["label"] = rng.choice(MC.TARGETS[:2])
+    f0["ests"] = [{"label": g["label"], "pos": list(g["pos"]), "size": list(g["size"]), "yaw_cs": g["yaw_cs"], "conf": None, "uuid": "t" + g["uuid"][1:]}
+                  for g in f0["gts"]]
+    f1 = MC.gen_frame(rng, 1, n_gt=0)
+    if rng.random() < 0.5:
+        f1["ests"] = []
+    else:
+        for e in f1["ests"]:
+            e["label"] = MC.TARGETS[3]
+    f2 = _copy.deepcopy(f0)
+    f2.update(index=2, t=f1["t"] + 100000, ego=MC.gen_frame(rng, 2, n_gt=0)["ego"])
+    k = rng.randrange(len(f2["ests"]))
+    f2["ests"][k]["pos"] = [f2["ests"][k]["pos"][0] + 3.0, f2["ests"][k]["pos"][1] + 4.0, f2["ests"][k]["pos"][2]]
+    same = [(a, b) for a in range(len(f2["ests"])) for b in range(a + 1, len(f2["ests"])) if f2["ests"][a]["label"] == f2["ests"][b]["label"] and k not in (a, b)]
+    if same:
+        a, b = rng.choice(same)
+        f2["ests"][a]["uuid"], f2["ests"][b]["uuid"] = f2["ests"][b]["uuid"], f2["ests"][a]["uuid"]
+    frames = [f0, f1, f2]
+    for fr in frames:
+        MC.assign_confidences([fr], rng)
+        v0 = fr.pop("ests")
+        fr["est_variants"] = [v0, [dict(e) for e in v0[: max(0, len(v0) - 1)]]]
+    c, p = 1, rng.randrange(len(PF))
+    ops = [["add", 0, 0, c, p], ["add", 1, 0, c, p], ["add", 2, 0, c, p], ["query"]]
+    if variant == 2:
+        ops += [["add", 0, 0, c, p], ["add", 2, 0, c, p], ["query"]]
+    elif variant == 1:      # the later frame is evaluated BEFORE the earlier one: the predecessor is the frame added before, not the older one
+        ops = [["add", 2, 0, c, p], ["add", 0, 0, c, p], ["query"], ["add", 1, 0, c, p], ["add", 2, 0, c, p], ["query"]]
+    return frames, ops
 
 
 class HistoryCorr(Corr):
@@ -206,8 +244,20 @@ class HistoryCorr(Corr):
                 frame = "cam_front"
             K = rng.randint(1, 4)
             frames = []
+            track_label = {}
             for i in range(K):
-                fr = MC.gen_frame(rng, i, fp_gt_prob=0.5) if task == "fp_validation" else MC.gen_frame(rng, i)
+                # every third history: a fifth of the estimates next to a ground truth is labelled unknown (not a target label)
+                fr = MC.gen_frame(rng, i, fp_gt_prob=0.5) if task == "fp_validation" else MC.gen_frame(rng, i, unknown_est_prob=0.2 if ci % 3 == 1 else 0.0)
+                if task == "tracking" and ci % 9 != 1:
+                    # real tracks: ground truth g<j> keeps ONE label through the history (and the estimate that agreed with it still agrees), so
+                    # that "same pair as in the preceding frame" and identity switches are common and the score of a frame / of the scene
+                    # really depends on which frame precedes which
+                    for g in fr["gts"]:
+                        old = g["label"]
+                        g["label"] = track_label.setdefault(g["uuid"], old)
+                        for e in fr["ests"]:
+                            if e["uuid"] == "t" + g["uuid"][1:] and e["label"] == old:
+                                e["label"] = g["label"]
                 MC.assign_confidences([fr], rng, distinct=(ci % 5 != 0))
                 v0 = fr.pop("ests")
                 v1 = [dict(e) for e in v0[: max(0, len(v0) - 1)]]
@@ -238,6 +288,14 @@ class HistoryCorr(Corr):
                 # a frame interpolated between dataset frames i and i+1 is requested (and evaluated elsewhere) in the middle of the history
                 ops.insert(rng.randrange(len(ops) + 1), ["interp", rng.randrange(K - 1)])
             ops.append(["query"])
+            if task == "tracking" and ci % 9 == 3:
+                frames, ops = gap_history(rng, (ci // 9) % 3)
+            elif K >= 2 and ci % 4 == 1:
+                # frames that carry their predecessor's NAME (what interpolated ground truth produces): a frame is identified by its content,
+                # never by its name
+                for i in range(1, K):
+                    if rng.random() < 0.7:
+                        frames[i]["name"] = frames[i - 1].get("name", str(frames[i - 1]["index"]))
             out.append({"task": task, "frame": frame, "frames": frames, "ops": ops})
         return out
 
@@ -461,7 +519,10 @@ class HistoryCorr(Corr):
     def distribution(self, cases, obs):
         d = {"tasks": {}, "frames": {}, "ops": 0, "queries": 0, "repeated_frame_evaluations": 0, "same_frame_other_filter": 0,
              "interpolated_frame_requests": sum(o.get("interp_done", 0) for o in obs),
-             "config_objects_reused_across_calls": 0, "scene_tracking_counter_sums_checked": 0, "scene_classification_counter_sums_checked": 0}
+             "config_objects_reused_across_calls": 0, "scene_tracking_counter_sums_checked": 0, "scene_classification_counter_sums_checked": 0,
+             "histories_with_frames_sharing_a_name": sum(1 for c in cases if any("name" in f for f in c["frames"])),
+             "tracking_histories_with_an_empty_middle_frame": sum(1 for c in cases if c["task"] == "tracking" and len(c["frames"]) == 3
+                                                                  and not c["frames"][1]["gts"] and c["frames"][2]["gts"] == c["frames"][0]["gts"])}
         for c, o in zip(cases, obs):
             adds = [x for x in c["ops"] if x[0] == "add"]
             d["config_objects_reused_across_calls"] += (len(adds) - len({x[3] for x in adds})) + (len(adds) - len({x[4] for x in adds}))
@@ -497,7 +558,9 @@ class PoolingCorr(Corr):
         n = 40 if tier == "quick" else 400
         for ci in range(n):
             K = rng.randint(1, 5)
-            frames = [MC.gen_frame(rng, i) for i in range(K)]
+            # every other scene: a fifth of the estimates next to a ground truth is labelled unknown -- not a target label, so the result
+            # is pooled under the label of the ground truth it is matched to (or dropped when it has none)
+            frames = [MC.gen_frame(rng, i, unknown_est_prob=0.2 if ci % 2 else 0.0) for i in range(K)]
             MC.assign_confidences(frames, rng, distinct=(ci % 4 != 0))
             order2 = list(reversed(range(K)))
             if K >= 3 and ci % 2:         # any other order must do, not only the reversed one
@@ -608,9 +671,16 @@ class PoolingCorr(Corr):
         return len(case["frames"]) >= 2 and any(a is not None for mp in obs["scene"]["maps"] for a in mp["aps"])
 
     def distribution(self, cases, obs):
+        unk = 0
+        for o in obs:
+            if isinstance(o, dict) and "facts" in o:
+                for mode, kinds in o["facts"].items():
+                    unk += sum(1 for frame in kinds["ap"] for f in frame if f["est_label"] not in MC.TARGETS and f["has_gt"])
+                    break
         return {"second_order": {"reversed": sum(1 for c in cases if c.get("order2") == list(reversed(range(len(c["frames"]))))),
                                  "random_permutation": sum(1 for c in cases if c.get("order2") != list(reversed(range(len(c["frames"])))))},
-                "frames": sum(len(c["frames"]) for c in cases)}
+                "frames": sum(len(c["frames"]) for c in cases),
+                "pooled_results_with_an_unknown_estimate_matched_to_a_target_ground_truth": unk}
 
     def describe(self, case, obs):
         return {"case": {"frame": case["frame"], "n_frames": len(case["frames"]), "crit": case["crit"], "distinct_confidences": case["distinct"]},
@@ -648,7 +718,13 @@ class C13(Prop):
             "oracles without a reference run: frame num_ground_truth = critical ground truths of the target labels, scene tracking counters "
             "(id switches, TP, FP per score and label) and scene classification counters (ground truths, results, TP, FP) = sums over the frame "
             "results held; pooling: the second order is the reversed one or (3+ frames, every other case) a random permutation, "
-            "scene / frame num_ground_truth compared with the number of target-label ground truths the frame results hold")
+            "scene / frame num_ground_truth compared with the number of target-label ground truths the frame results hold; "
+            "tracking histories keep ONE label per ground-truth track (8 of 9) so that same-pair / identity-switch events are common, and one "
+            "tracking history in three is frame 0, an EMPTY frame, frame 0 again with a displaced estimate and swapped identities (the scene "
+            "counters must be the sums of the frame counters, each frame scored against its real predecessor); "
+            "in a quarter of the histories later frames carry their predecessor's frame NAME (as interpolated ground truth does); "
+            "every other pooling scene and every third history label a fifth of the matched estimates 'unknown' (not a target label: the "
+            "result is pooled under the label of its ground truth)")
     assumptions = ["frame evaluation abstracted (Section variables)", "fingerprints capture every observable of a frame result"]
     not_proved = ["the content of a single frame evaluation (other properties)", "scene-level CLEAR pooling is validated against fresh replays, its formula is C05",
                   "Python object aliasing beyond the dataset frames and estimate lists (runtime observation)"]
